@@ -199,6 +199,7 @@ def rules(ctx):
         Rule("R01.c", "struct literal members and array items are compiled in the order written, each once, into its own field (store_struct_fields / store_array_items evaluated)", 5, r01c),
         Rule("R10.c", "fault path: brif(cond, pass, fail); puts(message), exit(1), trap in order (shared with C10)", 10, _reuse("c10", "r10c")),
         Rule("R10.a", "bounds check dominates every element access (shared with C10)", 7, _reuse("c10", "r10a")),
+        Rule("R10.g", "a member access compiles the expression in front of the `.` on every result path (its calls run, its indices are checked; shared with C10)", 1, _reuse("c10", "r10g")),
         Rule("R10.b", "#unwrap check dominates the payload access (shared with C10)", 3, _reuse("c10", "r10b")),
         Rule("R08.a", "binary operator -> Cranelift instruction table (shared with C08)", 27, _reuse("c08", "r08a")),
         Rule("R08.b", "cast_num decision tree (shared with C08)", 144, _reuse("c08", "r08b")),
